@@ -655,6 +655,14 @@ func genCase(idx int, seed int64, thorough bool) *caseOut {
 }
 
 func main() {
+	if d := os.Getenv("C15_STRESS"); d != "" {
+		dur, err := time.ParseDuration(d)
+		if err != nil {
+			dur = 3 * time.Second
+		}
+		stressChild(dur)
+		return
+	}
 	r := hlib.Start("C15")
 	if r.IsGen() {
 		text, err := genRacLean(r.Repo)
@@ -734,6 +742,7 @@ func main() {
 			}
 		}
 	}
+	runStress(r)
 	r.Extra("cases", nCases)
 	r.Extra("decode_oracle_cases", decodeCases)
 	r.Finish("files: random index trees (own encoder; multi-level, CBiasing, mixed nodes, long codecs, empty elements, three layouts), rac.ChunkWriter and rac.Writer+raczlib outputs (both index locations, page sizes, resources), each unmodified or with 1-3 mutations (index-node field edits with the checksum repaired, truncation, wrong claimed size, extension, bit flips); 16 directed constructions (self/mutual loops, chains, stale root buffer, 0xFD element, short file, missing root, mixed node, spec examples); random blobs with magic; node-level ops through the verif hooks. A case is non-trivial when its root node is found (open succeeds); distinct = distinct (file bytes, claimed size).")
